@@ -521,6 +521,31 @@ func TestVerifC12Hostile(t *testing.T) {
 					}
 					continue
 				}
+				if router == "gossipsub" && !unknown[p] && c.Chance(0.06) {
+					// advertisements that use up the peer's request budget for this heartbeat to the last ID, then one more
+					tt := "t"
+					budget := nd.gs.params.MaxIHaveLength
+					parts := c.Range(1, 3)
+					bseq++
+					base := bseq
+					for k := 0; k < parts; k++ {
+						lo, hi := k*budget/parts, (k+1)*budget/parts
+						ids := make([]string, 0, hi-lo)
+						for j := lo; j < hi; j++ {
+							ids = append(ids, fmt.Sprintf("adv-%d-%d", base, j))
+						}
+						p.Send(me, &pb.RPC{Control: &pb.ControlMessage{Ihave: []*pb.ControlIHave{{TopicID: &tt, MessageIDs: ids}}}})
+					}
+					p.Send(me, &pb.RPC{Control: &pb.ControlMessage{Ihave: []*pb.ControlIHave{{TopicID: &tt, MessageIDs: []string{fmt.Sprintf("adv-%d-one-more", base)}}}}})
+					what := fmt.Sprintf("ihave_budget (%d IDs in %d advertisements, then one more) from %s (%s)", budget, parts, p.name, p.protos[0])
+					c.Crumb("%s", what)
+					vSettle(30 * time.Millisecond)
+					classes["ihave_budget"]++
+					if !probe(what) {
+						break
+					}
+					continue
+				}
 				if c.Chance(0.06) {
 					// one well-formed RPC with far more fresh, correctly signed messages for the subscribed topic than the
 					// validation queue, the workers and the hand-back channel hold together
